@@ -19,7 +19,7 @@ RULE = ('Noll indices 1..231 (quick) / 1..1326 (thorough) enumerated completely 
 ASSUMPTIONS = ['the sign of sine modes is not pinned by the property: +sin and -sin are both accepted (per mode)']
 PLAN = {'quick': {'gen': 8}, 'thorough': {'gen': 16, 'tests': 1, 'docs': 1}}
 REQUIRED_BUCKETS = ['index', 'value:normalized', 'value:unnormalized', 'gram:diag', 'gram:offdiag', 'coords:even', 'coords:odd',
-                    'coords:offcentre', 'support-only', 'coords:shared', 'basis', 'compose:normalized', 'compose:unnormalized', 'theta:undefined-for-m=0', 'coords:narrow-float']
+                    'coords:offcentre', 'support-only', 'coords:shared', 'basis', 'compose:normalized', 'compose:unnormalized', 'theta:undefined-for-m=0', 'coords:narrow-float', 'value:high-order']
 REQUIRED_ANCHORS = ['probe:zernike_index', 'anchor:R', 'anchor:zernike', 'anchor:zernike_coordinates']
 REQUIRED_ORACLES = ['index=noll', 'index:bijective', 'mode=textbook', 'R(1)=1', 'gram=I', '|Z|<=1', 'rho=centroid-distance',
                     'origin=centroid', 'zero-outside', 'support-only']
@@ -59,7 +59,7 @@ def install(ctx, lentil):
 
 def ref_mode(j, rho, theta, normalize):
     n, m, par = _NOLL[j]
-    return rm.zernike_value(n, m, par, rho, theta, normalize, sine_sign=+1), par
+    return rm.zernike_value(n, m, par, rho, theta, normalize, sine_sign=+1, exact=True), par
 
 
 def cmp_mode(ctx, key, what, got, ref, par, desc, tol=1e-10, scale=None):
@@ -105,8 +105,10 @@ def workload(ctx, lentil):
     # ---- (ii)/(iv) values on caller supplied polar coordinates -----------------------------------
     nv = ctx.count(160, 900)
     for i in range(nv):
-        # up to radial order 26 (j = 378): beyond that float64 cancellation in any factorial sum exceeds the tolerance
-        j = int(rng.integers(1, 379)) if rng.random() < 0.8 else int(rng.integers(1, 29))
+        # all orders up to n = 50 (j = 1326); the reference is evaluated in exact rational arithmetic, so there is no order from
+        # which the comparison has to be loosened
+        u = rng.random()
+        j = int(rng.integers(1, 379)) if u < 0.6 else int(rng.integers(1, 29)) if u < 0.8 else int(rng.integers(379, 1327))
         shape = gen.rshape(rng, 1, 12)
         rho = rng.random(shape) ** 0.5
         if rng.random() < 0.2:
@@ -141,22 +143,21 @@ def workload(ctx, lentil):
         except Exception as e:
             ctx.check(False, 'mode=textbook', f'mode|raises={type(e).__name__}', str(e), desc)
             continue
-        ref, par = ref_mode(j, rho, theta, normalize)
+        n, m, par = _NOLL[j]
+        ref = rm.zernike_value(n, m, par, rho, theta, normalize, sine_sign=+1, exact=True)
         ref = (ref * (mask != 0)).astype(float)
-        n, m, _ = _NOLL[j]
-        # float64 evaluation of an alternating factorial sum loses digits as n grows: allow cond(n)*eps
-        cond = float(sum(abs(c) for c in rm.radial_coeffs(n, m).values()))
+        if j > 378:
+            ctx.bucket('value:high-order')
+        # a well-conditioned evaluation of the mode is good to a few (n+4) ulp of its largest value sqrt(2(n+1)) (or 1)
         cmp_mode(ctx, 'mode|value', 'mode differs from the textbook radial polynomial times its azimuthal factor',
-                 np.asarray(got, float), ref, par, desc, tol=16 * (n + 4) * rm.EPS * max(cond, 1.0) * (np.sqrt(2 * (n + 1))), scale=1.0)
-        if not normalize and cond * rm.EPS < 1e-6:
-            ctx.check(bool(np.all(np.abs(got) <= 1 + 16 * (n + 4) * rm.EPS * cond)), '|Z|<=1', 'mode|bounded',
+                 np.asarray(got, float), ref, par, desc, tol=64 * (n + 4) * rm.EPS * (np.sqrt(2 * (n + 1))), scale=1.0)
+        if not normalize:
+            ctx.check(bool(np.all(np.abs(got) <= 1 + 64 * (n + 4) * rm.EPS)), '|Z|<=1', 'mode|bounded',
                       'unnormalised mode exceeds 1 in magnitude on the unit disk', desc)
-        else:
-            ctx.oracle_evals['|Z|<=1'] += 0
         # radial polynomial is 1 at the rim
         if i % 4 == 0:
             one = Z.R(m, n, np.ones((1, 3)))
-            ctx.close('R(1)=1', np.asarray(one, float) + np.zeros((1, 3)), np.ones((1, 3)), 64 * rm.EPS * max(cond, 1),
+            ctx.close('R(1)=1', np.asarray(one, float) + np.zeros((1, 3)), np.ones((1, 3)), 64 * (n + 4) * rm.EPS,
                       'R|rim', 'radial polynomial is not 1 at rho = 1', {'n': n, 'm': m}, scale=1.0)
 
     # ---- one caller-owned coordinate system re-used for several masks; zernike_basis on sparse / unsorted mode lists ------
@@ -182,9 +183,8 @@ def workload(ctx, lentil):
                 continue
             ref, par = ref_mode(j, rho_ref, theta_ref, normalize)
             n_, m_, _ = _NOLL[j]
-            cond = float(sum(abs(c) for c in rm.radial_coeffs(n_, m_).values()))
             cmp_mode(ctx, 'mode|shared-coords', 'mode on caller coordinates that were used before for another mask differs from the textbook mode',
-                     got, (ref * m).astype(float), par, dict(desc, mode=j, call=q), tol=16 * (n_ + 4) * rm.EPS * max(cond, 1.0) * np.sqrt(2 * n_ + 2),
+                     got, (ref * m).astype(float), par, dict(desc, mode=j, call=q), tol=64 * (n_ + 4) * rm.EPS * np.sqrt(2 * n_ + 2),
                      scale=1.0)
         ctx.check(probe.fp_array(rho) == fr and probe.fp_array(theta) == ft, 'support-only', 'coords|caller-arrays-modified',
                   'zernike modified the coordinate arrays supplied by the caller', desc)
@@ -253,12 +253,7 @@ def workload(ctx, lentil):
         desc = {'gram': [a, b]}
         ctx.case(desc, ['gram:diag' if a == b else 'gram:offdiag'])
         g = float(np.sum(W * mode(a) * mode(b)))
-        cond = float(sum(abs(c) for c in rm.radial_coeffs(na, _NOLL[a][1]).values())) * \
-            float(sum(abs(c) for c in rm.radial_coeffs(nb, _NOLL[b][1]).values()))
-        tol = max(1e-10, 256 * rm.EPS * cond * np.sqrt((na + 1) * (nb + 1)))
-        if tol > 1e-6:
-            ctx.skip('gram: float64 cancellation in the radial sum too large to decide')
-            continue
+        tol = 1e-10
         ctx.close('gram=I', np.array([g]), np.array([1.0 if a == b else 0.0]), tol, 'gram|diag' if a == b else 'gram|offdiag',
                   'normalised modes are not orthonormal over the unit disk', dict(desc, value=g), scale=1.0)
 
@@ -344,9 +339,8 @@ def workload(ctx, lentil):
                       dict(desc, mode=j, normalize=nrm), scale=max(1.0, float(np.abs(zsingle).max())))
             if not nrm:
                 n_c, m_c, _ = _NOLL[j]
-                cond_c = float(sum(abs(c) for c in rm.radial_coeffs(n_c, m_c).values()))
                 bigc = max(1.0, float(np.max(rho_l[mask]))) ** n_c
-                ctx.check(bool(np.all(np.abs(zcomp) <= 1 + 256 * rm.EPS * cond_c * bigc + 1e-11)), '|Z|<=1', 'compose|bounded',
+                ctx.check(bool(np.all(np.abs(zcomp) <= 1 + 256 * rm.EPS * (n_c + 4) * bigc + 1e-11)), '|Z|<=1', 'compose|bounded',
                           'an unnormalised composed unit mode exceeds 1 in magnitude', dict(desc, mode=j))
         except Exception as e:
             ctx.check(False, 'mode=textbook', f'compose|raises={type(e).__name__}', str(e), desc)
@@ -356,8 +350,7 @@ def workload(ctx, lentil):
         # value on default coordinates equals the textbook mode at (own rho, lentil theta)
         n, m, parity = _NOLL[j]
         ref, p2 = ref_mode(j, dist / rmax, theta_l, True)
-        cond = float(sum(abs(c) for c in rm.radial_coeffs(n, m).values()))
         big = max(1.0, float((dist / rmax).max())) ** n
         cmp_mode(ctx, f'coords|value|{par}', 'mode on default coordinates differs from the textbook mode about the centroid',
-                 za, (ref * mask).astype(float), p2, dict(desc, mode=j), tol=256 * rm.EPS * cond * big * np.sqrt(2 * n + 2) + 1e-11,
+                 za, (ref * mask).astype(float), p2, dict(desc, mode=j), tol=256 * rm.EPS * (n + 4) ** 2 * big * np.sqrt(2 * n + 2) + 1e-11,
                  scale=1.0)
